@@ -253,6 +253,47 @@ func c04(c *Ctx) {
 			}
 		}
 		c.R.Check(okCred, load.FuncName(fc)+": req.Credentials", c.pos(run.Pos()), "credentials are keyed by the step's own credential names", "credentials are not taken from the step's own credentials list")
+		// … read without tolerance: the read of a credentials Secret tolerates no error class
+		// (no filter, no benign predicate), and no credential is stored on its failure edges
+		for _, g := range calls(fc, clientGet) {
+			args := cfgx.CallArgs(g)
+			if len(args) < 3 {
+				continue
+			}
+			isSecret := false
+			if mi, ok := args[2].(*ssa.MakeInterface); ok && strings.HasSuffix(mi.X.Type().String(), "k8s.io/api/core/v1.Secret") {
+				isSecret = true
+			}
+			if !isSecret {
+				continue
+			}
+			var stores []ssa.Instruction
+			for _, b := range fc.Blocks {
+				for _, in := range b.Instrs {
+					if mu, ok := in.(*ssa.MapUpdate); ok && strings.HasSuffix(mu.Map.Type().String(), "v1.Credentials") && cfgx.InstrReaches(g, mu, nil) {
+						stores = append(stores, mu)
+					}
+				}
+			}
+			if len(stores) == 0 {
+				continue // not the read of a step's credentials
+			}
+			ev := cfgx.ErrEvents(g)
+			bad := ""
+			switch {
+			case ev == nil || len(ev.Fail) == 0:
+				bad = "the error of the read is never tested"
+			case len(ev.Filtered) > 0 || len(ev.PredTrue) > 0:
+				bad = "the read tolerates an error class (" + strings.Join(append(append([]string{}, ev.Filtered...), ev.Preds...), ", ") + "): a step whose Secret cannot be read is sent to its function without its credentials"
+			default:
+				for _, st := range stores {
+					if reach, _ := cfgx.ReachableFromEdges(ev.Fail, st, nil, nil); reach {
+						bad = "a credential is stored on the failure edge of the read"
+					}
+				}
+			}
+			c.R.Check(bad == "", load.FuncName(fc)+": credentials Secret read strictly", c.pos(g.Pos()), "every failure of the read of a credentials Secret ends the step with an error", bad)
+		}
 		// … all of them: the loop over the step's credentials is left early only with an error
 		for _, b := range fc.Blocks {
 			for _, in := range b.Instrs {
